@@ -45,9 +45,9 @@ type oval struct {
 	inner  *oval // ovAbs
 }
 
-func onum(rank int) *oval  { return &oval{kind: ovNum, rank: rank, known: true} }
-func oopaque() *oval       { return &oval{kind: ovNum} }
-func obool(b bool) *oval   { return &oval{kind: ovBool, b: b} }
+func onum(rank int) *oval { return &oval{kind: ovNum, rank: rank, known: true} }
+func oopaque() *oval      { return &oval{kind: ovNum} }
+func obool(b bool) *oval  { return &oval{kind: ovBool, b: b} }
 func (v *oval) copy() *oval {
 	if v == nil {
 		return nil
